@@ -9,7 +9,7 @@ RULE = ("PE: generated images signed with relic's own pe-coff signer (P-256 / RS
         "positions are mutated one byte at a time and the real verifier (integrity on) is run on each mutant; the model predicts "
         "pass/fail from `locate` and from equality of the hashed stream; mutations inside the PKCS#7 blob are left to the code. "
         "Non-trivial = distinct signed image.")
-install(globals(), "C02", ["pe", "e2e", "cms", "cab", "ps", "jar", "xsig", "apkv", "deb", "appx", "macho", "vsix", "xap", "msisign", "dmg", "cosign", "appxv", "xar", "csvfy"])
+install(globals(), "C02", ["pe", "e2e", "cms", "cab", "ps", "jar", "xsig", "apkv", "deb", "appx", "macho", "vsix", "xap", "msisign", "dmg", "cosign", "appxv", "xar", "csvfy", "rpm"])
 UNPROVED += ['Relic.Props.C02.dmg_every_byte_protected_full (false: blank trailer ranges, SignatureLength, bytes between signature and trailer reach no hash: dmg_blank_unprotected, dmg_gap_unprotected; proved: dmg_trailer_protected, dmg_data_protected, forHashing_eq_iff)']
 import cms as _cms  # container layer: Relic.Props.C02.cms_accept_implies and corollaries (lean/Relic/Props/C02_Cms.lean)
 RULE += " || " + _cms.RULE
@@ -24,3 +24,5 @@ UNPROVED += ['Relic.Props.C02.xar_every_byte_protected_full (false: classic RSA 
 import csvfy as _csvfy  # Apple code signatures, decision logic: Relic.Props.C02.csblob_accept_iff and corollaries (lean/Relic/Props/C02_CsVerify.lean)
 UNPROVED += _csvfy.UNPROVED_C02
 TIE_THEOREM += "; Relic.Props.C02.csblob_accept_iff (Relic.Model.CsVerify vs csblob.Verify / machos.Verify / verifyIPA on structurally mutated, really signed Mach-O images)"
+import rpm as _rpm  # RPM signer (checklib/models/rpm.py; lean/Relic/Props/C02_Rpm.lean)
+UNPROVED = list(UNPROVED) + _rpm.UNPROVED["C02"]
